@@ -244,6 +244,7 @@ async fn scenario_generic<C: Config>(
         let mut counter = runs_before.clone();
         for e in &ev {
             match e {
+                Event::Req { .. } | Event::FirstUnwind { .. } => {}
                 Event::Enter { key, act, .. } => {
                     let c = counter.entry(*key).or_insert(0);
                     *c += 1;
